@@ -977,6 +977,7 @@ func isUnknownSpec(a predOutcome) predOutcome {
 
 //@ func (*Executor).executeDecimalMethod
 //@ props C16 C08
+//@ ensures [C16 C08] invalid-argument-is-a-hard-error: ncalls(getNodeInt32) >= 1 && callret[error](getNodeInt32, 1) != nil ==> r1 != nil && errIs(r1, ErrExecution) && !errIs(r1, ErrVerbose)
 //@ ensures [C05] class: r1 != nil ==> errIs(r1, ErrExecution) || errIs(r1, ErrInvalid)
 //@ ensures [C16] passthrough: node.Operator() != ast.BinaryDecimal || node.Left() == nil ==> r1 == nil && sameFloat(r0, num)
 //@ ensures [C16 C08] precision-range: node.Operator() == ast.BinaryDecimal && node.Left() != nil && ncalls(getNodeInt32) >= 1 && firstret[error](getNodeInt32, 1) == nil && (firstret[int](getNodeInt32, 0) < 1 || firstret[int](getNodeInt32, 0) > 1000) ==> r1 != nil && errIs(r1, ErrExecution) && !errIs(r1, ErrVerbose)
